@@ -266,6 +266,9 @@ def _gen_op(r, name, mc, toy):
         op["rel"] = r.choice(["free", "free", "same", "neg", "dbl"])
         op["sib"] = r.random() < 0.1
         op["i"] = idx()
+        # the identity handed in as a Jacobian triple (t^2, t^3, 0)
+        op["inf"] = r.random() < 0.04
+        op["inft"] = r.choice([0, 1, 1, 2, r.randrange(1, mc.p)])
     elif name in ("x", "y", "xy", "scale", "to_affine", "double", "neg",
                   "order", "pickle"):
         op["i"] = idx()
@@ -634,7 +637,17 @@ class _State(object):
             val = pts[op["k"] % len(pts)]
         else:
             val = ec.mul(mc, op["k"], mc.G)
+        if op.get("inf"):
+            val = O
         if val is O:
+            t = op.get("inft", 0) % mc.p
+            if t and not op["legacy"]:
+                order = decl_order(env, op["order"])
+                obj = env.le.PointJacobi(env.cf, t * t % mc.p,
+                                         t * t * t % mc.p, 0, order)
+                core.bump(self.out["probes"], "identity_z0")
+                self.put(obj, O)
+                return
             self.put(env.le.INFINITY, O)
             return
         order = decl_order(env, op["order"])
